@@ -67,6 +67,16 @@ def corruptions(inst, rng):
            ("concat", js + js, False),
            ("empty", "", False), ("not_json", "I could not produce JSON, sorry.", False),
            ("array", "[1, 2, 3]", False), ("scalar", "42", False)]
+    # typography inside string values of otherwise valid JSON (curly quotes, apostrophe, no-break space): strict must take it exactly as json parsing gives it
+    ty = {k: ("say \u201chi\u201d it\u2019s\u00a0ok " + v if isinstance(v, str) else v) for k, v in d.items()}
+    if ty != d:
+        out.append(("typography", json.dumps(ty, ensure_ascii=False), False))
+    # words the repair rules rewrite, inside string values, next to a real defect: only agreement of the two folds (and totality) is judged on these
+    kw = {k: ("None of the above is True" if isinstance(v, str) else v) for k, v in d.items()}
+    if kw != d:
+        kj = json.dumps(kw)
+        out += [("kw_trailing_comma", kj[:-1] + ",}", False), ("kw_single_quotes", kj.replace('"', "'"), False), ("kw_nan", kj[:-1] + ', "zz": NaN,}', False),
+                ("kw_fenced_comma", "```json\n%s,}\n```" % kj[:-1], False)]
     # type swaps: ints as strings (lenient coercion keeps the value), strings as numbers
     sw = dict(d)
     changed = False
@@ -196,7 +206,7 @@ def batch(args):
             o["equals_json"] = oracle and st == ref
             o["agree"] = (plain.valid == enh.valid and plain.structure == enh.structure and (plain.structure is not None) == bool(plain.valid)
                           and (plain.error_trace is None) == bool(plain.valid))
-            o["no_fabrication"] = (not enh.valid) or (isinstance(st, schema) and not_fabricated(st, schema, raw))
+            o["no_fabrication"] = (not enh.valid) or cname.startswith("kw_") or (isinstance(st, schema) and not_fabricated(st, schema, raw))
             o["matches_truth"] = (not enh.valid) or inst is None or st == inst
             recs.append({"order": order, "single": single, "o": o, "schema": schema.__name__})
     r, pf, dr = flat.judge("Trace_Chaperone", recs, tag="c11." + tag)
